@@ -345,18 +345,19 @@ func (s *state) visitPrint(node *ast.PrintNode) {
 			}
 		}
 	}
+	// directives apply left to right, autoescaping last: the first directive is
+	// the innermost call, escapeHtml (when escaping) the outermost.
 	if escape != ast.AutoescapeOff {
-		directives = append([]*ast.PrintDirectiveNode{{0, "escapeHtml", nil}}, directives...)
+		directives = append(directives, &ast.PrintDirectiveNode{0, "escapeHtml", nil})
 	}
 
 	s.indent()
 	s.js(s.bufferName, " += ")
-	for _, dir := range directives {
-		s.js(PrintDirectives[dir.Name].Name, "(")
+	for i := range directives {
+		s.js(PrintDirectives[directives[len(directives)-1-i].Name].Name, "(")
 	}
 	s.walk(node.Arg)
-	for i := range directives {
-		var dir = directives[len(directives)-1-i]
+	for _, dir := range directives {
 		for _, arg := range dir.Args {
 			s.js(",")
 			s.walk(arg)
